@@ -79,6 +79,14 @@ MUTANTS = {
     "union_order_first_member": ("types.py", "        classes = self.types\n        compare = [\n            x for t in classes if (x := typeorder(t, other)) is not Order.NONE\n        ]\n        if not compare:\n            return Order.NONE\n        elif any(x is Order.MORE",
                                  "        classes = self.types[:1]\n        compare = [\n            x for t in classes if (x := typeorder(t, other)) is not Order.NONE\n        ]\n        if not compare:\n            return Order.NONE\n        elif any(x is Order.MORE", ["C06", "C12"]),
     "dominates_by_regorder": ("typemap.py", "            return self.tiebreak > other.tiebreak", "            return (self.tiebreak, self.handler.__code__.co_filename) > (other.tiebreak, other.handler.__code__.co_filename)", ["C06", "C02"]),
+    # ---- C12
+    "opposite_more_self": ("mro.py", "        elif self is Order.MORE:\n            return Order.LESS", "        elif self is Order.MORE:\n            return Order.MORE", ["C12"]),
+    "inter_order_swapped": ("types.py", "        elif any(x is Order.LESS or x is Order.SAME for x in compare):\n            return Order.LESS\n        else:\n            return Order.MORE",
+                            "        elif any(x is Order.LESS or x is Order.SAME for x in compare):\n            return Order.MORE\n        else:\n            return Order.LESS", ["C12"]),
+    "generic_args_ignored": ("mro.py", "        ords = [typeorder(a1, a2) for a1, a2 in zip(args1, args2)]\n        return Order.merge(ords)", "        return Order.SAME", ["C12"]),
+    "dep_vs_class_none": ("dependent.py", "        elif subclasscheck(other, self.bound) or subclasscheck(\n            self.bound, other\n        ):\n            return Order.LESS", "        elif subclasscheck(other, self.bound):\n            return Order.LESS", ["C12"]),
+    "typeorder_no_reflect": ("mro.py", "        return result.opposite()\n\n    o1 = get_origin(t1)", "        return result\n\n    o1 = get_origin(t1)", ["C12"]),
+    "merge_less_wins": ("mro.py", "        elif not (orders - {Order.LESS, Order.SAME}):\n            return Order.LESS", "        elif Order.LESS in orders:\n            return Order.LESS", ["C12"]),
     # ---- C17
     "ext_first_base_only": ("core.py", "                for other in others:\n                    prev.add_mixins(other)\n", "", ["C17"]),
     "ext_no_copy": ("core.py", "                prev = prev.copy()\n                for other in others:", "                for other in others:", ["C17"]),
